@@ -11,7 +11,7 @@ patch -p1 -s < "$SRC/patch.diff" || { echo "PATCH-FAILED"; rm -rf "$D"; exit 3; 
 cd "$D" && /venv/bin/python "$SRC/demo.py" >"$D/.demo_with.txt" 2>&1; RC1=$?
 echo "demo with change:    exit $RC1 ($(grep -m1 FAIL $D/.demo_with.txt | cut -c1-160))"
 if [ -z "$SKIP_SUITE" ]; then /verif/tools/baseline.sh "$D" | tail -3; fi
-cd /verif && VERIF_REPO="$D" /venv/bin/python -m simhost.check "$PROP" --tier "$TIER" --budget "$BUDGET" --no-evidence >"$D/.check.txt" 2>&1; RC2=$?
+cd ${VERIF_DIR:-/verif} && VERIF_REPO="$D" /venv/bin/python -m simhost.check "$PROP" --tier "$TIER" --budget "$BUDGET" --no-evidence >"$D/.check.txt" 2>&1; RC2=$?
 grep -E "^violation:|^VIOLATION|^OK |DID-NOT-REACH|HARNESS" "$D/.check.txt" | cut -c1-260 | head -6
 echo "check $PROP exit $RC2"
 rm -rf "$D"
